@@ -72,6 +72,9 @@ func (m impV) String() string {
 	if m.Kind == 0 {
 		return fmt.Sprintf("M(%d;%s)", giBoundary[m.LeafIdx], m.Inner)
 	}
+	if m.Kind == 2 {
+		return fmt.Sprintf("M+rollupbits(%d,%d;%s)", giBoundary[m.Rollup], giBoundary[m.LeafIdx], m.Inner)
+	}
 	return fmt.Sprintf("R(%d,%d;%s)", giBoundary[m.Rollup], giBoundary[m.LeafIdx], m.Inner)
 }
 func (s spec) String() string {
@@ -352,6 +355,9 @@ var worldSeq atomic.Int64
 func globalIndexBig(m impV) *big.Int {
 	if m.Kind == 0 {
 		return globalIndex(true, 0, giBoundary[m.LeafIdx])
+	}
+	if m.Kind == 2 {
+		return globalIndex(true, giBoundary[m.Rollup], giBoundary[m.LeafIdx]) // as emitted on chain: unused rollup bits set
 	}
 	return globalIndex(false, giBoundary[m.Rollup], giBoundary[m.LeafIdx])
 }
